@@ -92,6 +92,7 @@ pub struct GenCfg {
     pub ctor_faults: bool,
     pub ctor_ops: usize,
     pub quarantine: bool,
+    pub recycle: bool,
     /// finalize callbacks: chance (out of 8) that resurrect ops are drawn
     pub resurrect_bias: u32,
     /// chance out of 16 that a callback consists of barrier-only ops
@@ -282,7 +283,7 @@ impl Gen {
             return Conv::None;
         }
         match v.sh.objs.get(&child).map(|o| o.kind) {
-            Some(Kind::Node) => [Conv::Erase, Conv::Unsize, Conv::Raw, Conv::Weak][self.rng.below(4)],
+            Some(Kind::Node) => [Conv::Erase, Conv::Unsize, Conv::Raw, Conv::Weak, Conv::Kind][self.rng.below(if crate::payload::node_tag_of(child) != 0 { 5 } else { 4 })],
             Some(Kind::Field) => [Conv::Raw, Conv::Weak][self.rng.below(2)],
             Some(Kind::Slice { .. }) | Some(Kind::Swh { .. }) => [Conv::Thin, Conv::Thin, Conv::Weak][self.rng.below(3)],
             Some(_) => [Conv::None, Conv::Weak][self.rng.below(2)],
@@ -530,7 +531,7 @@ impl Gen {
                     // decide the link now, against the view before the allocation
                     let conv = if self.rng.below(16) < self.cfg.conv_bias as usize {
                         match kind {
-                            Kind::Node => [Conv::Erase, Conv::Unsize, Conv::Raw, Conv::Weak][self.rng.below(4)],
+                            Kind::Node => [Conv::Erase, Conv::Unsize, Conv::Raw, Conv::Weak, Conv::Kind][self.rng.below(if crate::payload::node_tag_of(id) != 0 { 5 } else { 4 })],
                             Kind::Slice { .. } | Kind::Swh { .. } => Conv::Thin,
                             _ => Conv::None,
                         }
@@ -654,7 +655,10 @@ impl Gen {
                 }
                 OW_PANIC => return Some(Op::Panic),
                 OW_BUILDER => {
-                    let kind = [BKind::Sized, BKind::Swh, BKind::Swh, BKind::SwhTokPod, BKind::SwhTokPod, BKind::SwhPodTok, BKind::Slice, BKind::CopySlice, BKind::Str, BKind::StaticSwh][self.rng.below(10)];
+                    let kind = [
+                        BKind::Sized, BKind::Swh, BKind::Swh, BKind::SwhTokPod, BKind::SwhTokPod, BKind::SwhPodTok, BKind::Slice, BKind::CopySlice, BKind::Str, BKind::StaticSwh,
+                        BKind::SliceZst, BKind::SwhZst, BKind::SwhZst, BKind::SwhMeta, BKind::SwhRaw, BKind::SizedRaw, BKind::StrRaw,
+                    ][self.rng.below(17)];
                     let n = self.rng.below(9) as u8;
                     let stage = match self.rng.below(8) {
                         0 => BStage::AbandonNew,
@@ -667,10 +671,14 @@ impl Gen {
                         (BKind::CopySlice | BKind::Str, BStage::PanicAt(_)) => BStage::WrongLen(1),
                         (BKind::Swh | BKind::SwhPodTok | BKind::Slice | BKind::StaticSwh, BStage::WrongLen(_)) => BStage::AbandonAfterHeader,
                         (BKind::Sized, BStage::PanicAt(_) | BStage::WrongLen(_)) => BStage::AbandonNew,
+                        (BKind::SliceZst, BStage::WrongLen(_)) => BStage::Complete,
+                        (BKind::SwhZst | BKind::SwhMeta, BStage::WrongLen(_)) => BStage::Complete,
+                        (BKind::SwhRaw, BStage::PanicAt(_) | BStage::WrongLen(_)) => BStage::Complete,
+                        (BKind::SizedRaw | BKind::StrRaw, BStage::PanicAt(_) | BStage::WrongLen(_) | BStage::AbandonAfterHeader) => BStage::Complete,
                         (_, s) => s,
                     };
                     let first = v.sh.next_id;
-                    if kind == BKind::Swh && stage == BStage::Complete && self.rng.chance(2, 3) {
+                    if matches!(kind, BKind::Swh | BKind::SwhZst | BKind::SliceZst | BKind::SwhMeta | BKind::SwhRaw | BKind::SizedRaw) && stage == BStage::Complete && self.rng.chance(2, 3) {
                         // link the finished object so that it is later collected like any other
                         if let Some((holder, hk, ns)) = self.pick_strong_holder(v) {
                             let slot = self.rng.below(ns);
@@ -683,7 +691,7 @@ impl Gen {
                 OW_CONVERT => {
                     let Some(obj) = self.pick_child(v) else { continue };
                     let n = 1 + self.rng.below(4);
-                    let all = [Conv::Erase, Conv::Unsize, Conv::Raw, Conv::Weak, Conv::Thin];
+                    let all = [Conv::Erase, Conv::Unsize, Conv::Raw, Conv::Weak, Conv::Thin, Conv::Kind];
                     let chain = (0..n).map(|_| all[self.rng.below(all.len())]).collect();
                     return Some(Op::Convert { obj, chain });
                 }
